@@ -91,7 +91,8 @@ def is_symbolic(v) -> bool:
     from crosshair.tracers import NoTracing
 
     with NoTracing():
-        return type(v).__module__.startswith("crosshair")
+        m = getattr(type(v), "__module__", "")
+        return isinstance(m, str) and m.startswith("crosshair")
 
 
 def realize(v):
